@@ -15,13 +15,15 @@ tie:    a self-certifying reference classification (python search, every certifi
 """
 import itertools
 from fractions import Fraction as F
-from . import build, proto, core, gen, translate, solvelib, lpfam, refsolve
+from . import build, proto, core, gen, translate, solvelib, lpfam, refsolve, ratiotie
 from .gen import q2s, LP, INF, NINF
 from .solvelib import arr
 
 OBL = {
     "C03": [("Qsx.Props.C03", t) for t in ["Qsx.Props.C03.optimal_cert_sound", "Qsx.Props.C03.farkas_cert_sound", "Qsx.Props.C03.ray_cert_sound",
-                                           "Qsx.Props.C03.classes_exclusive", "Qsx.Props.C03.value_unique", "Qsx.Props.C03.ladder_bound"]],
+                                           "Qsx.Props.C03.classes_exclusive", "Qsx.Props.C03.value_unique", "Qsx.Props.C03.ladder_bound",
+                                           "Qsx.Props.C03.ratio_pII_never_failed", "Qsx.Props.C03.ratio_pII_unbounded_ray",
+                                           "Qsx.Props.C03.ratio_pII_flip_feasible", "Qsx.Props.C03.ratio_pII_step_feasible"]],
     "C04": [("Qsx.Props.C04", t) for t in ["Qsx.Props.C04.certified_answers_agree", "Qsx.Props.C04.certified_status_agree",
                                            "Qsx.Props.C04.repeated_solve_cached"]],
 }
@@ -124,6 +126,7 @@ def run(pid, tier, seed):
         return all(max(abs(F(v).numerator).bit_length(), F(v).denominator.bit_length()) <= 2000 for v in nums)
     lps = [(k, lp) for k, lp in lps if wf(lp) and moderate(lp)]
     model = solvelib.Model(pinf, ninf)
+    ratio_compare = ratiotie.run(ev, rep, rng.fork("ratiotie"), exe, model, quick) if pid == "C03" else None
     refs = reference([lp for _, lp in lps if len(lp.cols) <= 160 and len(lp.rows) <= 40] , model) if True else []
     refmap = {}
     ri = 0
@@ -208,6 +211,8 @@ def run(pid, tier, seed):
             if y and y != ["untouched"]:
                 asks.append((model.ask("farkas %s %s" % (key, " ".join(y))), ctx, "infeasible", entry))
     model.run()
+    if ratio_compare:
+        ratio_compare()
     for k, ctx, what, entry in asks:
         if proto.get(model.ans(k), "ok") != ["1"]:
             rep.violation("%s answer (%s) fails the proved %s checker" % (what.upper(), ctx["config"], "optimality" if what == "optimal" else "Farkas"),
